@@ -289,6 +289,10 @@ def Stop.ofString : String → Option Stop
   | "answering" => some .answering
   | "full-goaway" => some .fullGoaway
   | "full-complete" => some .fullComplete
+  -- a *Torrent refused by AddTorrent as a duplicate: Done and Deleted closed, nobody dequeues
+  | "never-ran-refused" => some .before
+  -- the loop parked longer than any caller-side timeout while tor.Expire queries it, then released
+  | "expire-parked" => some .live
   | _ => none
 
 def headIsSignal (c : Cfg) : Bool :=
